@@ -1,8 +1,8 @@
 package rules
 
 import (
-	"go/token"
 	"fmt"
+	"go/token"
 	"go/types"
 	"sort"
 	"strings"
@@ -569,7 +569,6 @@ func c17R5(c *Ctx, rule string) {
 	c.WhoMay(rule, "close(r.shutdownCh)", closers, map[string]string{"(*Raft).Shutdown": "the only closer"})
 }
 
-
 // c17R6: a user Restore answers EVERY in-flight future before it goes on: the
 // cancel loop takes the front element, answers it with ErrAbortedByRestore and
 // removes it, and is left only when Front() is nil. (An element that stays in
@@ -621,7 +620,6 @@ func c17R6(c *Ctx, rule string) {
 		return loops && v.Seen("answered") && v.Seen("removed")
 	})
 }
-
 
 // c17R7: vote() may block on a send into verifyCh (a buffered queue shared
 // with API submissions, drained by the main loop). The main loop itself takes
@@ -699,7 +697,6 @@ func c17R7(c *Ctx, rule string) {
 		c.Check(rule, "vote:reports-on-notifyCh", c.P.Pos(vf.Pos()), "vote hands a decided future back on its notifyCh", sends >= 1, fmt.Sprintf("%d sends", sends), 1)
 	}
 }
-
 
 // sTransferWorkerReports: the leadership-transfer worker sends its outcome on
 // doneCh at every exit; the bookkeeping goroutine waits for it before it
